@@ -56,6 +56,7 @@ func c16(c *Ctx) {
 	c.seqNumbersAreNonZero("R16.6")
 	c.intervalsAreOrdered("R16.7")
 	c.uidSetsSkipMissing("R16.8")
+	c.uidDispatchInRange("R16.9")
 
 	// ---- R16.1b / R16.3 conversions ---------------------------------------------------
 	convs, narrow := 0, 0
@@ -1077,4 +1078,137 @@ func (c *Ctx) uidSetsSkipMissing(rule string) {
 		R.Check(ok, rule, c.name(f)+"|error return#"+strconv.Itoa(n), P.Pos(ret.Pos()), "the error is resolveUIDInterval's", "getMessagesInUIDRange returns an error of its own: a UID set naming a UID that does not exist makes the command fail instead of skipping it")
 	}
 	R.Min(rule, "error returns of getMessagesInUIDRange", n, 1)
+}
+
+// isUIDIfs returns the blocks of f that branch on contexts.IsUID(ctx).
+func isUIDIfs(f *ssa.Function) []*ssa.BasicBlock {
+	var out []*ssa.BasicBlock
+	for _, b := range f.Blocks {
+		iff := engine.IfOf(b)
+		if iff == nil {
+			continue
+		}
+		cond, neg := engine.StripNot(iff.Cond)
+		if neg {
+			continue
+		}
+		if call, ok := cond.(*ssa.Call); ok {
+			if sc := call.Call.StaticCallee(); sc != nil && engine.BaseName(sc) == "IsUID" && strings.HasSuffix(engine.PkgPathOf(sc), "internal/contexts") {
+				out = append(out, b)
+			}
+		}
+	}
+	return out
+}
+
+// uidDispatchInRange (R16.9): a UID command resolves its set against UIDs, any other against sequence numbers.
+func (c *Ctx) uidDispatchInRange(rule string) {
+	P, R := c.P, c.R
+	R.Explain(rule, "UID commands address UIDs, the others sequence numbers: in snapshot.getMessagesInRange the call of getMessagesInUIDRange is dominated by the true edge of contexts.IsUID(ctx) and the call of getMessagesInSeqRange by its false edge (swapped or unconditional dispatch maps a set onto other messages).")
+	f := c.fn(rule, "internal/state.(*snapshot).getMessagesInRange")
+	if f == nil {
+		return
+	}
+	ifs := isUIDIfs(f)
+	n := 0
+	for _, cs := range engine.Calls(f) {
+		sc := cs.Common().StaticCallee()
+		if sc == nil {
+			continue
+		}
+		want := -1
+		switch engine.BaseName(sc) {
+		case "getMessagesInUIDRange":
+			want = 0
+		case "getMessagesInSeqRange":
+			want = 1
+		default:
+			continue
+		}
+		n++
+		ok := false
+		for _, b := range ifs {
+			if engine.EdgeDominates(b, want, cs.Instr.Block()) {
+				ok = true
+			}
+		}
+		R.Check(ok, rule, c.name(f)+"|"+engine.BaseName(sc), P.Pos(cs.Pos()), "on the matching edge of IsUID(ctx)", engine.BaseName(sc)+" is not called exactly on the "+map[int]string{0: "true", 1: "false"}[want]+" edge of contexts.IsUID(ctx)")
+	}
+	R.Min(rule, "range lookups dispatched in getMessagesInRange", n, 2)
+}
+
+// reachingStores computes, with the CFG edge `cut` removed, which stores to addr reach an instruction
+// (classic reaching definitions, last store in a block kills).  live=false: the instruction is unreachable.
+func reachingStores(f *ssa.Function, addr ssa.Value, cut engine.Edge) func(at ssa.Instruction) ([]*ssa.Store, bool) {
+	in := map[*ssa.BasicBlock]map[*ssa.Store]bool{}
+	out := map[*ssa.BasicBlock]map[*ssa.Store]bool{}
+	live := map[*ssa.BasicBlock]bool{f.Blocks[0]: true}
+	for changed := true; changed; {
+		changed = false
+		for _, b := range f.Blocks {
+			if !live[b] {
+				continue
+			}
+			cur := map[*ssa.Store]bool{}
+			for k := range in[b] {
+				cur[k] = true
+			}
+			for _, ins := range b.Instrs {
+				if st, ok := ins.(*ssa.Store); ok && st.Addr == addr {
+					cur = map[*ssa.Store]bool{st: true}
+				}
+			}
+			if len(cur) != len(out[b]) {
+				changed = true
+			} else {
+				for k := range cur {
+					if !out[b][k] {
+						changed = true
+					}
+				}
+			}
+			out[b] = cur
+			for i, s := range b.Succs {
+				if cut.From == b && cut.Succ == i {
+					continue
+				}
+				if !live[s] {
+					live[s] = true
+					changed = true
+				}
+				if in[s] == nil {
+					in[s] = map[*ssa.Store]bool{}
+				}
+				for k := range cur {
+					if !in[s][k] {
+						in[s][k] = true
+						changed = true
+					}
+				}
+			}
+		}
+	}
+	return func(at ssa.Instruction) ([]*ssa.Store, bool) {
+		b := at.Block()
+		if !live[b] {
+			return nil, false
+		}
+		cur := map[*ssa.Store]bool{}
+		for k := range in[b] {
+			cur[k] = true
+		}
+		for _, ins := range b.Instrs {
+			if ins == at {
+				break
+			}
+			if st, ok := ins.(*ssa.Store); ok && st.Addr == addr {
+				cur = map[*ssa.Store]bool{st: true}
+			}
+		}
+		var res []*ssa.Store
+		for k := range cur {
+			res = append(res, k)
+		}
+		return res, true
+	}
 }
